@@ -51,6 +51,10 @@ var zzSnippets = []string{
 	"// comment", "/* block\ncomment */", "x = `raw\nstring`", "var c = 1", "module m { d = 1 }", "a ?? b", "a ? b : c", "",
 	"for { break }", "for i = 0; i < 2; i++ { }", "a.b = 1", "delete(m, \"k\")", "go f(1)", "defer f(1)", "s = \"a\\nb\"",
 	"a = 1; b = 2", "a, b = 1, 2", "x = make([]int64, 1)", "len(a)", "-a + !b",
+	// texts whose last token closes a node positioned from the lexer's last
+	// token (empty array, parenthesis, typed literal): the token after it is
+	// the end of input alone and a newline in a concatenation
+	"x = []", "[]", "y = (a)", "(a + b)", "z = []int64{1}", "w = [\n1,\n2\n]", "f([])", "a = [[]]", "a = ([])", "m = {}", "x = [] ", "x = [] // c",
 }
 
 type zzNodeRec struct {
@@ -151,3 +155,66 @@ func ZZ_C15_P3_P4b_compose() {
 		zz.Assert(ok, "C15.P4b.same-subtrees-with-shifted-positions")
 	}
 }
+
+// zzComposeSym: composition with one symbolic side of n ASCII runes.  If the
+// symbolic text parses on its own, its concatenation with a fixed text that
+// parses parses too, the statement lists concatenate and every node of the
+// second text keeps its position shifted by the first text's line count.
+func zzComposeSym(n int, symFirst bool) {
+	sym := zz.SymString(n)
+	fixed := []string{"b = [1]", "f(x)"}[zz.Choose(2)]
+	s1, s2 := sym, fixed
+	if !symFirst {
+		s1, s2 = fixed, sym
+	}
+	t1, e1 := ParseSrc(s1)
+	t2, e2 := ParseSrc(s2)
+	if e1 != nil || e2 != nil {
+		return
+	}
+	tc, ec := ParseSrc(s1 + "\n" + s2)
+	zz.Assert(ec == nil, "C15.P4b.sym/concatenation-parses")
+	if ec != nil {
+		return
+	}
+	lines := 1
+	for i := 0; i < len(s1); i++ {
+		lines += zz.Ite(s1[i] == '\n', 1, 0)
+	}
+	l1, l2, lc := zzTopLevel(t1), zzTopLevel(t2), zzTopLevel(tc)
+	zz.Assert(len(lc) == len(l1)+len(l2), "C15.P4b.sym/statement-lists-concatenate")
+	if len(lc) != len(l1)+len(l2) {
+		return
+	}
+	for i, st := range lc {
+		var ref []zzNodeRec
+		shift := 0
+		if i < len(l1) {
+			ref = zzFlatten(l1[i])
+		} else {
+			ref = zzFlatten(l2[i-len(l1)])
+			shift = lines
+		}
+		got := zzFlatten(st)
+		zz.Assert(len(got) == len(ref), "C15.P4b.sym/same-subtree-shape")
+		if len(got) != len(ref) {
+			return
+		}
+		ok := true
+		for k := range got {
+			r := ref[k]
+			if r.line != 0 || r.col != 0 {
+				r.line += shift
+			}
+			ok = zz.And(ok, zz.And(got[k].kind == r.kind, zz.And(got[k].line == r.line, got[k].col == r.col)))
+		}
+		zz.Assert(ok, "C15.P4b.sym/same-subtrees-with-shifted-positions")
+	}
+}
+
+func ZZ_C15_P4b_compose_sym_first_n1()  { zzComposeSym(1, true) }
+func ZZ_C15_P4b_compose_sym_first_n2()  { zzComposeSym(2, true) }
+func ZZ_C15_P4b_compose_sym_first_n3()  { zzComposeSym(3, true) }
+func ZZ_C15_P4b_compose_sym_second_n1() { zzComposeSym(1, false) }
+func ZZ_C15_P4b_compose_sym_second_n2() { zzComposeSym(2, false) }
+func ZZ_C15_P4b_compose_sym_second_n3() { zzComposeSym(3, false) }
